@@ -320,7 +320,19 @@ STORAGE_BLOCKS = [
     "MUL PUSH 3 ADDMOD PUSH 0 MLOAD SLOAD ADD DUP1 PUSH 0 MSTORE8 PUSH 1 PUSH 1 SUB MLOAD SLOAD ADD STOP",
     "PUSH 0 SLOAD PUSH 20 PUSH 0 LOG0 PUSH 0 SLOAD PUSH 1 PUSH 2 ADD ADD ADD STOP",
     "DUP1 SLOAD DUP2 SLOAD ADD SWAP1 SSTORE", "PUSH 1 SLOAD PUSH 1 SLOAD ADD PUSH 2 SSTORE", "DUP1 SLOAD PUSH 1 ADD DUP2 SSTORE SLOAD",
+    "ADDMOD ADDMOD SHL NOT ADDMOD ADDMOD MULMOD ISZERO DUP1 PUSH 5 SSTORE PUSH 5 SLOAD STOP",
     "PUSH 7 DUP2 SSTORE PUSH 8 DUP2 SSTORE POP", "DUP2 DUP2 SSTORE DUP2 DUP2 SSTORE POP POP", "PUSH 0 SLOAD POP PUSH 0 SLOAD",
+]
+
+
+# files of several blocks (one per line; JUMP ends a block, JUMPDEST starts one): a costly block first, then blocks that are split
+# (LOG, GAS, CALL...) and whose first sub block has a tempting candidate that is worse in some criterion
+MULTI_BLOCK_FILES = [
+    ["PUSH 1 PUSH 2 PUSH 3 PUSH 4 PUSH 5 SWAP4 SWAP3 SWAP2 JUMP", "JUMPDEST PUSH 40 DUP1 PUSH 0 DUP1 LOG1 PUSH 7 ADD"],
+    ["PUSH ffffffffffffffffffffffffffffffff PUSH ffffffffffffffffffffffffffffffff PUSH ffffffffffffffffffffffffffffffff SWAP2 SWAP1 JUMP",
+     "JUMPDEST PUSH 40 DUP1 DUP1 DUP1 LOG2 PUSH 2 EXP GAS POP PUSH 20 DUP1 ADD SWAP1 JUMP", "JUMPDEST PUSH 2 EXP PUSH 0 DUP1 LOG0 PUSH 1 PUSH 1 ADD"],
+    ["DUP3 DUP3 DUP3 ADDMOD SWAP3 POP POP POP PUSH 1 PUSH 2 PUSH 3 PUSH 4 SWAP3 JUMP", "JUMPDEST PUSH 20 DUP1 PUSH 0 DUP1 DUP1 LOG3 PUSH 40 DUP1 GAS ADD ADD SWAP1 JUMP",
+     "JUMPDEST CALLER DUP1 PUSH 0 DUP1 LOG0 POP POP"],
 ]
 
 
@@ -380,9 +392,73 @@ class EndToEndCost(NativeCase):
                 else:
                     self.ob('emitted block costs no more than its input [%s]' % crit, fig_out[crit] <= fig_in[crit], inputs=inp,
                             info="%s %d -> %d" % (crit, fig_in[crit], fig_out[crit]))
-        self.assumptions = ("bounded: %d blocks x 3 criteria, %d emitted blocks differ from their input; gas on %d sampled states with an empty "
-                            "warm set at block entry" % (len(blocks), changed, n_states + 5 + 15),)
+        # files of several blocks: what the acceptance test measures a sub block against must not come from a block processed
+        # before (seed C08-5: a split block after a costlier one)
+        for lines in MULTI_BLOCK_FILES:
+            toks_l = [corpus.tokens(b) for b in lines]
+            text = "\n".join(pipeline.plain_text(t) for t in toks_l) + "\n"
+            for crit, opts in (('gas', []), ('size', ['-size']), ('length', ['-length'])):
+                r = pipeline.run_cli(text, opts, timeout=60)
+                if r['output'] is None:
+                    continue
+                outs = [l for l in r['output'].strip().split('\n') if l.strip()]
+                self.ob('one emitted block per input block', len(outs) == len(lines), inputs=dict(file=lines, criterion=crit), info=outs)
+                if len(outs) != len(lines):
+                    continue
+                for toks, out_line in zip(toks_l, outs):
+                    items_in, items_out = evmexec.parse_plain(toks), pipeline.parse_output_block(out_line)
+                    if items_out == items_in:
+                        continue
+                    changed += 1
+                    inp = dict(file=lines, block=pipeline.plain_text(toks), criterion=crit, output=out_line)
+                    if crit == 'gas':
+                        worst = None
+                        try:
+                            for st in evmexec.sample_stacks(utils.compute_stack_size(plain_names(toks)), n=n_states, seed=3):
+                                gi, go_ = gasmodel.gas_of(items_in, st, 0), gasmodel.gas_of(items_out, st, 0)
+                                if worst is None or go_ - gi > worst[0]:
+                                    worst = (go_ - gi, gi, go_, [hex(x) for x in st])
+                        except (evmexec.Underflow, KeyError):
+                            worst = None
+                        if worst is not None:
+                            self.ob('emitted block costs no more than its input [gas]', worst[0] <= 0, inputs=dict(inp, state=worst[3]),
+                                    info="gas %d -> %d on that state" % (worst[1], worst[2]))
+                    else:
+                        fi = indep_size(items_in) if crit == 'size' else indep_length(items_in)
+                        fo = indep_size(items_out) if crit == 'size' else indep_length(items_out)
+                        self.ob('emitted block costs no more than its input [%s]' % crit, fo <= fi, inputs=inp, info="%s %d -> %d" % (crit, fi, fo))
+        self.assumptions = ("bounded: %d blocks and %d files of several blocks x 3 criteria, %d emitted blocks differ from their input; gas on %d sampled "
+                            "states with an empty warm set at block entry" % (len(blocks), len(MULTI_BLOCK_FILES), changed, n_states + 5 + 15),)
         cleanup_tmp()
+
+
+class GasFigureLiteralKeys(NativeCase):
+    """bounded: AsmBlock.gas_spent (the figure block_has_been_optimized compares under the gas criterion) equals the independent
+    execution gas (specs/gasmodel.py: EIP-2929 warm/cold per slot and account, store classes) on every sequence of at most N accesses
+    to two literal storage slots and two accounts - loads, first and repeated stores, in every order (seed C08-7: a stored slot not
+    warm for a later load)"""
+    prop = 'C08'
+    name = "gas-figure-of-storage-accesses=independent-gas(bounded)"
+    functions = (AsmBlock.gas_spent.fget,)
+
+    def run_native(self, tier):
+        import itertools
+        import sfs_generator.parser_asm as parser_asm
+        ops = ["PUSH 5 SLOAD POP", "PUSH 6 SLOAD POP", "PUSH 7 PUSH 5 SSTORE", "PUSH 8 PUSH 6 SSTORE", "PUSH 9 PUSH 5 SSTORE", "ADDRESS BALANCE POP",
+               "CALLER BALANCE POP", "CALLER EXTCODESIZE POP"]
+        N = 3 if tier == 'quick' else 4
+        n = 0
+        for L in range(1, N + 1):
+            for seq in itertools.product(ops, repeat=L):
+                toks = corpus.tokens(" ".join(seq))
+                blk = parser_asm.parse_blocks_from_plain_instructions(pipeline.plain_text(toks))[0]
+                ref = gasmodel.gas_of(evmexec.parse_plain(toks), [], 1)
+                fig = blk.gas_spent
+                n += 1
+                self.ob('gas figure of the block = independent execution gas', fig == ref, inputs=dict(block=" ".join(seq)),
+                        info="AsmBlock.gas_spent = %d, independent = %d" % (fig, ref))
+        self.assumptions = ("bounded: %d blocks (all sequences of <= %d accesses over 8 access instructions with literal keys); empty warm set and "
+                            "original = current value at block entry" % (n, N),)
 
 
 class SingleJsonOutput(NativeCase):
@@ -417,5 +493,5 @@ def cases(tier='quick'):
     cs += [BlockHasBeenOptimized(c) for c in ('size', 'gas', 'length', 'other')]
     cs += [CompareBestBlock(c) for c in ('size', 'gas', 'length')]
     cs.append(UpdateCounts())
-    cs += [EndToEndCost(), SingleJsonOutput()]
+    cs += [EndToEndCost(), GasFigureLiteralKeys(), SingleJsonOutput()]
     return cs, dict(item_vocabulary=len(BASIC) + len(PSEUDO) + 1)
